@@ -151,7 +151,6 @@ func c08Trees(depth int, leaves []*gripql.HasExpression) []*gripql.HasExpression
 	return out
 }
 
-
 func c08Gen(g *fw.GenCtx) []fw.Case {
 	var cases []fw.Case
 	for _, op := range c08Ops {
